@@ -91,10 +91,19 @@ def gen(rng, tier):
                 tm["targets"].append(i)
             tm["workers"][0]["skills"]["t%d" % i] = 1.0
         spec["ranks"] = G.gen_ranks(rng, m)
+    if spec.get("stage", "built") == "built" and spec["model"].get("comps") and spec["model"].get("wps") and rng.random() < 0.25:
+        # a never simulated plan in which the user has put a component somewhere with set_placed_workplace alone (the workplace's
+        # own list does not mention it): the reference is part of the file and must come back as an object
+        spec["preplaced"] = [[rng.randrange(len(spec["model"]["comps"])), rng.randrange(len(spec["model"]["wps"]))]
+                             for _ in range(rng.randint(1, 2))]
     return spec
 
 
 def extra_candidates(spec):
+    if spec.get("preplaced"):
+        c = dict(spec)
+        c.pop("preplaced")
+        yield c
     for st in ("built", "finished"):
         if spec.get("stage") != st and spec.get("stage") not in ("built",):
             c = dict(spec)
@@ -295,6 +304,11 @@ def run(spec):
     p = b.project
     seams.attach(p)
     out = None
+    if spec.get("preplaced") and stage == "built":
+        res.count("preplaced_component")
+        for ci_, wi_ in spec["preplaced"]:
+            p.product.component_list[ci_ % len(p.product.component_list)].set_placed_workplace(
+                p.organization.workplace_list[wi_ % len(p.organization.workplace_list)], set_to_all_children=False)
     if stage == "initialized":
         D.call(lambda: p.initialize())
     elif stage == "paused":
